@@ -36,6 +36,7 @@ type GhostUpdate struct {
 }
 
 type AssertSpec struct {
+	Nth    int    // 0: every matching statement; N>0: only the N-th match in source order ("stmt"@N)
 	Before string // printed statement prefix to match
 	Clause *Clause
 	Assume bool
@@ -546,11 +547,21 @@ func (c *Contracts) ParseText(path string, text string, pkgPath string) error {
 			if err != nil {
 				return fail(l, "bad statement string: %v", err)
 			}
-			cl, err := parseClause(strings.TrimSpace(rest[end+1:]), path, l.line)
+			after := rest[end+1:]
+			nth := 0
+			if strings.HasPrefix(after, "@") {
+				j := 1
+				for j < len(after) && after[j] >= '0' && after[j] <= '9' {
+					j++
+				}
+				nth, _ = strconv.Atoi(after[1:j])
+				after = after[j:]
+			}
+			cl, err := parseClause(strings.TrimSpace(after), path, l.line)
 			if err != nil {
 				return fail(l, "%v", err)
 			}
-			cur.Asserts = append(cur.Asserts, &AssertSpec{Before: stmt, Clause: cl, Assume: w == "assume"})
+			cur.Asserts = append(cur.Asserts, &AssertSpec{Before: stmt, Clause: cl, Assume: w == "assume", Nth: nth})
 		case "yields":
 			if cur == nil || cur.Iter == nil {
 				return fail(l, "yields outside iterator func")
